@@ -3,6 +3,7 @@ import Restli.Proofs.SortKeys
 import Restli.Proofs.Digits
 import Restli.Proofs.Escape
 import Restli.Model.RenderRor2
+import Restli.Model.Norm
 /-! Towards the typed ROR2 round trip: what the writer renders is the rendering of a well-formed
 raw-token tree (`rawOf`), so the bridge applies to every document any encoder can produce. -/
 namespace Restli.Codec
@@ -68,9 +69,6 @@ def floatText (bits : Nat) : Bytes :=
   else if d.cls == 1 then (if d.neg then 45 :: infinityB else infinityB)
   else Strconv.formatFloat64 bits
 
-/-- reading back a float: the same bits, except that every NaN reads as the canonical NaN -/
-def normF (f : Strconv.FloatFmt) (b : Nat) : Nat :=
-  if (Strconv.decodeBits f b).cls == 2 then Strconv.nanBits f else b
 
 /-- what the proofs assume about `strconv` float formatting/parsing and the float32/float64
 conversions (third-party; modelled in Lib/Strconv.lean and compared with Go on every run):
